@@ -74,6 +74,7 @@ type Param struct {
 }
 
 type SpecFunc struct {
+	Uninterpreted bool // declared without a body
 	Name   string
 	Params []Param
 	Ret    string
@@ -896,7 +897,10 @@ func parseSpecFunc(text string) (*SpecFunc, error) {
 	rest := t[cl+1:]
 	eq := strings.Index(rest, "=")
 	if eq < 0 {
-		return nil, fmt.Errorf("spec %s: missing = body", sf.Name)
+		// no body: an uninterpreted function of the identities of its arguments (bool or integer result)
+		sf.Ret = strings.TrimSpace(rest)
+		sf.Uninterpreted = true
+		return sf, nil
 	}
 	sf.Ret = strings.TrimSpace(rest[:eq])
 	body, err := ParseExpr(rest[eq+1:])
